@@ -199,6 +199,7 @@ const (
 	modeSmall
 	modePipe // writes go through file.ChunkPipe and builder.FeedPipeline
 	modeEncSmall
+	modeSynth // synthetic encrypted file served chunk by chunk on demand (reader only)
 )
 
 type Runner struct {
@@ -216,6 +217,104 @@ type Runner struct {
 	j       file.Joiner
 	size    int64
 	pos     int64 // the oracle's own cursor
+	syn     *synthStore
+}
+
+// total is the length of the content; slice its bytes [at, at+n).
+func (rn *Runner) total() int64 {
+	if rn.syn != nil {
+		return rn.syn.size
+	}
+	return int64(len(rn.written))
+}
+
+func (rn *Runner) slice(at, n int64) []byte {
+	if rn.syn != nil {
+		return rn.syn.content(at, n)
+	}
+	return rn.written[at : at+n]
+}
+
+// synthStore serves the canonical encrypted tree of a periodic content of `size` bytes (4096
+// references of 64 bytes per intermediate chunk) without materialising it: addresses
+// keccak("A" ‖ le64 off ‖ le64 span) (the joiner never re-hashes), keys keccak("K" ‖ …), zero padding;
+// a chunk is built from its position when it is requested (own keystream implementation).
+type synthStore struct {
+	pat   []byte
+	size  int64
+	index map[string][2]int64
+}
+
+func le64b(v int64) []byte {
+	var l [8]byte
+	binary.LittleEndian.PutUint64(l[:], uint64(v))
+	return l[:]
+}
+func synthAddr(off, span int64) []byte { return keccak([]byte("A"), le64b(off), le64b(span)) }
+func synthKey(off, span int64) []byte  { return keccak([]byte("K"), le64b(off), le64b(span)) }
+
+func synthKids(span int64) (fl, k int64) {
+	fl = C
+	for fl*4096 < span {
+		fl *= 4096
+	}
+	return fl, (span + fl - 1) / fl
+}
+
+func newSynth(seed uint64, size int64, period int) *synthStore {
+	s := &synthStore{pat: core.GenBytes(seed, period, 0), size: size, index: map[string][2]int64{}}
+	var walk func(off, span int64)
+	walk = func(off, span int64) {
+		s.index[string(synthAddr(off, span))] = [2]int64{off, span}
+		if span <= C {
+			return
+		}
+		fl, k := synthKids(span)
+		for i := int64(0); i < k; i++ {
+			sp := span - i*fl
+			if sp > fl {
+				sp = fl
+			}
+			walk(off+i*fl, sp)
+		}
+	}
+	walk(0, size)
+	return s
+}
+
+func (s *synthStore) content(at, n int64) []byte {
+	out := make([]byte, n)
+	for i := range out {
+		out[i] = s.pat[(at+int64(i))%int64(len(s.pat))]
+	}
+	return out
+}
+
+func (s *synthStore) Get(ctx context.Context, mode storage.ModeGet, a boson.Address) (boson.Chunk, error) {
+	pos, ok := s.index[string(a.Bytes())]
+	if !ok {
+		return nil, storage.ErrNotFound
+	}
+	off, span := pos[0], pos[1]
+	var payload []byte
+	if span <= C {
+		payload = s.content(off, span)
+	} else {
+		fl, k := synthKids(span)
+		for i := int64(0); i < k; i++ {
+			sp := span - i*fl
+			if sp > fl {
+				sp = fl
+			}
+			payload = append(payload, synthAddr(off+i*fl, sp)...)
+			payload = append(payload, synthKey(off+i*fl, sp)...)
+		}
+	}
+	key := synthKey(off, span)
+	data := make([]byte, 8+C) // zero padding
+	copy(data, xorStream(le64b(span), key, uint32(C/64)))
+	copy(data[8:], xorStream(payload, key, 0))
+	return boson.NewChunk(a, data), nil
 }
 
 type pipeResult struct {
@@ -418,7 +517,7 @@ func sentinelBuf(ln, cp int) (buf, mem []byte) {
 // checkRead evaluates the reader-contract clauses on one ReadAt/Read result.
 // `at` is the offset the read was served from; kind is "readat" or "read".
 func (rn *Runner) checkRead(ctx *core.Ctx, kind string, at int64, ln, cp, n int, err error, mem []byte) {
-	size := int64(len(rn.written))
+	size := rn.total()
 	want := 0
 	if at < size {
 		want = ln
@@ -449,7 +548,7 @@ func (rn *Runner) checkRead(ctx *core.Ctx, kind string, at int64, ln, cp, n int,
 	if n != want && n <= ln {
 		ctx.Fail(kind+"-count", "returned %d, want min(len, size-off) = %d (off %d len %d size %d)", n, want, at, ln, size)
 	}
-	if n >= 0 && n <= cp && at >= 0 && at+int64(n) <= size && !bytes.Equal(mem[:n], rn.written[at:at+int64(n)]) {
+	if n >= 0 && n <= cp && at >= 0 && at+int64(n) <= size && !bytes.Equal(mem[:n], rn.slice(at, int64(n))) {
 		ctx.Fail(kind+"-content", "bytes differ from content[%d:%d]", at, at+int64(n))
 	}
 }
@@ -482,6 +581,18 @@ func (rn *Runner) Step(ctx *core.Ctx, op []string) string {
 		rn.reset(modeSmall)
 		rn.sc, rn.sb = c, b
 		rn.p = smallPipeline(context.Background(), rn.st, c, b)
+		return "ok"
+	case len(op) == 5 && op[0] == "new" && op[1] == "synth":
+		seed, e1 := strconv.ParseUint(op[2], 10, 64)
+		size, e2 := strconv.ParseInt(op[3], 10, 64)
+		period, ok3 := atoi(op[4])
+		if e1 != nil || e2 != nil || !ok3 || size < 0 || period <= 0 || period > C || size > 16*int64(C)*4096 {
+			return "bad-op"
+		}
+		rn.reset(modeSynth)
+		rn.syn = newSynth(seed, size, period)
+		rn.summed = true
+		rn.root = append(synthAddr(0, size), synthKey(0, size)...)
 		return "ok"
 	case len(op) == 4 && op[0] == "new" && op[1] == "encsmall":
 		c, ok1 := atoi(op[2])
@@ -602,14 +713,18 @@ func (rn *Runner) Step(ctx *core.Ctx, op []string) string {
 		if rn.mode == modeSmall || rn.mode == modeEncSmall {
 			return "nojoin"
 		}
-		j, size, err := joiner.New(context.Background(), rn.st, storage.ModeGetRequest, boson.NewAddress(rn.root))
+		var getter storage.Getter = rn.st
+		if rn.syn != nil {
+			getter = rn.syn
+		}
+		j, size, err := joiner.New(context.Background(), getter, storage.ModeGetRequest, boson.NewAddress(rn.root))
 		if err != nil {
 			ctx.Fail("open-error", "%v", err)
 			return "err"
 		}
 		rn.j, rn.size, rn.pos = j, size, 0
-		if size != int64(len(rn.written)) {
-			ctx.Fail("size-mismatch", "joiner.New reports %d, content has %d bytes", size, len(rn.written))
+		if size != rn.total() {
+			ctx.Fail("size-mismatch", "joiner.New reports %d, content has %d bytes", size, rn.total())
 		}
 		return fmt.Sprintf("ok %d", size)
 	}
@@ -619,8 +734,8 @@ func (rn *Runner) Step(ctx *core.Ctx, op []string) string {
 	switch {
 	case len(op) == 1 && op[0] == "size":
 		s := rn.j.Size()
-		if s != int64(len(rn.written)) {
-			ctx.Fail("size-mismatch", "Size() = %d, content has %d bytes", s, len(rn.written))
+		if s != rn.total() {
+			ctx.Fail("size-mismatch", "Size() = %d, content has %d bytes", s, rn.total())
 		}
 		return strconv.FormatInt(s, 10)
 	case len(op) == 4 && op[0] == "readat":
@@ -655,7 +770,7 @@ func (rn *Runner) Step(ctx *core.Ctx, op []string) string {
 			return "bad-op"
 		}
 		p, err := rn.j.Seek(off, wh)
-		size := int64(len(rn.written))
+		size := rn.total()
 		var target int64
 		valid := true
 		switch wh {
@@ -692,6 +807,8 @@ func (rn *Runner) Step(ctx *core.Ctx, op []string) string {
 			return "erroffset"
 		}
 		return "err"
+	case len(op) == 1 && op[0] == "readall" && rn.mode == modeSynth:
+		return "noreadall"
 	case len(op) == 1 && op[0] == "readall":
 		var out bytes.Buffer
 		n, err := file.JoinReadAll(context.Background(), rn.j, &out)
